@@ -98,6 +98,11 @@ FIXED = [
     ("C09", "7001aa0", "choose failed unless all choices had one common shape with >= 1 dimension"),
     ("C10", "b0345b4", "prod over a tuple of axes kept the reduced axes (keepdims=False) and returned partial products for negative axes"),
     ("C10", "e1f0ff9", "det of 1x1 matrices returned 0"),
+    ("C18", "d4a7197", "glexsort(graded=True) broke ties with an unstable sort: glexsort([[3,3,0,1],[0,0,2,1]], graded=True) = [2,3,1,0]; comparisons, lead terms, sort proxy, print order inherit it"),
+    ("C18", "fa38b4a", "glexindex/bindex/monomial returned the indices below start (xor of the two truncation sets) when the lower set was not inside the upper one"),
+    ("C19", "6e5ea68", "tonumpy raised ValueError for a constant polynomial that has no explicit constant row (all stored terms zero)"),
+    ("C19", "faec1d6", "set_dimensions dropping every term returned an unwritten 0-d polynomial"),
+    ("C03", "64ca5a4", "monomial over an empty index range in D > 1 dimensions returned an object whose storage key width (1) did not match its D names"),
 ]
 
 
